@@ -243,7 +243,11 @@ func main() {
 						}
 						mu.Lock()
 						raceReports++
-						if !rr.InLibrary() {
+						if !rr.InLibrary() && rr.InStdlibOnValues() {
+							viols = append(viols, found{v: sim.Violation{Property: id, Class: sim.VRace, Op: "values-shared-between-callers",
+								Detail: fmt.Sprintf("data race inside the standard library (%s / %s) on memory reachable from values the library returned to two callers", rr.Top[0], rr.Top[1])},
+								run: p.Run, prog: &p, race: rr, bin: bin, nw: nw, base: base})
+						} else if !rr.InLibrary() {
 							harnessTrouble++
 							trouble = append(trouble, "race report without a library frame:\n"+rr.Text)
 						} else {
